@@ -31,6 +31,8 @@ type specCtx struct {
 	block *ssa.BasicBlock
 	pkg   *types.Package
 	depth int
+	nowSt *State
+	nowBlock *ssa.BasicBlock
 }
 
 var (
@@ -101,7 +103,7 @@ func (vc *VC) specEval(fr *Frame, st, old *State, expr string, block *ssa.BasicB
 	} else if fr.fn.Parent() != nil && fr.fn.Parent().Pkg != nil {
 		pkg = fr.fn.Parent().Pkg.Pkg
 	}
-	c := &specCtx{vc: vc, fr: fr, st: st, old: old, bound: map[string]specVal{}, block: block, pkg: pkg}
+	c := &specCtx{vc: vc, fr: fr, st: st, old: old, bound: map[string]specVal{}, block: block, pkg: pkg, nowSt: st, nowBlock: block}
 	return c.eval(e), nil
 }
 
@@ -224,7 +226,7 @@ func (c *specCtx) eval(e ast.Expr) specVal {
 // closedFacts adds the type invariant of a heap read made by a specification, when the read term
 // is closed (mentions no quantified variable).
 func (c *specCtx) closedFacts(v specVal) specVal {
-	if v.typ == nil || strings.Contains(v.term, "q_") {
+	if v.typ == nil || c.vc.inQuant > 0 {
 		return v
 	}
 	switch v.typ.Underlying().(type) {
@@ -262,6 +264,26 @@ func (c *specCtx) lookupName(name string) (specVal, bool) {
 			}
 			if phi.Comment == name || (name == "ri" && phi.Comment == "rangeindex") {
 				return specVal{term: vc.value(c.fr, c.st, phi), typ: phi.Type()}, true
+			}
+		}
+	}
+	if len(name) > 2 && strings.HasPrefix(name, "ri") {
+		if n, err := strconv.Atoi(name[2:]); err == nil {
+			for h, ord := range loopOrdinals(fn) {
+				if ord != n {
+					continue
+				}
+				for _, in := range h.Instrs {
+					phi, ok := in.(*ssa.Phi)
+					if !ok {
+						break
+					}
+					if phi.Comment == "rangeindex" {
+						if _, bound := c.fr.env[phi]; bound {
+							return specVal{term: vc.value(c.fr, c.st, phi), typ: phi.Type()}, true
+						}
+					}
+				}
 			}
 		}
 	}
@@ -645,7 +667,9 @@ func (c *specCtx) call(x *ast.CallExpr) specVal {
 		}
 		return n.eval(args[0])
 	case "now":
-		return c.eval(args[0])
+		n := c.with(c.nowSt)
+		n.block = c.nowBlock
+		return n.eval(args[0])
 	case "atlock":
 		n := c.with(vc.lockState(c.st))
 		n.block = nil
@@ -676,7 +700,11 @@ func (c *specCtx) call(x *ast.CallExpr) specVal {
 			n.bound[id.Name] = specVal{term: bn, typ: tInt}
 			decls = append(decls, fmt.Sprintf("(%s Int)", bn))
 		}
-		body := n.eval(args[len(args)-1])
+		vc.inQuant++
+		body := func() specVal {
+			defer func() { vc.inQuant-- }()
+			return n.eval(args[len(args)-1])
+		}()
 		return specVal{term: fmt.Sprintf("(%s (%s) %s)", name, strings.Join(decls, " "), body.term), typ: tBool}
 	case "len":
 		v := c.eval(args[0])
@@ -732,6 +760,9 @@ func (c *specCtx) call(x *ast.CallExpr) specVal {
 		v := c.eval(args[0])
 		t := c.resolveType(args[1])
 		return specVal{term: fmt.Sprintf("(= (if_type %s) %d)", v.term, vc.typeID(t)), typ: tBool}
+	case "as":
+		v := c.eval(args[0])
+		return specVal{term: v.term, typ: c.resolveType(args[1])}
 	case "ref":
 		v := c.eval(args[0])
 		if vc.sortOfVal(v) == "Iface" {
@@ -798,6 +829,9 @@ func (c *specCtx) call(x *ast.CallExpr) specVal {
 		}
 		dom, _ := vc.mapSV(mt)
 		return specVal{term: fmt.Sprintf("(and (not (= %s 0)) (select (select %s %s) %s))", m.term, vc.get(c.st, dom), m.term, k.term), typ: tBool}
+	case "anylock":
+		vc.svDeclare("G_nheld", "Int")
+		return specVal{term: fmt.Sprintf("(>= %s 1)", vc.get(c.st, "G_nheld")), typ: tBool}
 	case "condlock":
 		a := c.eval(args[0])
 		return specVal{term: fmt.Sprintf("(cond_lock %s)", a.term), typ: tInt}
@@ -935,6 +969,9 @@ func (c *specCtx) methodOrPkgCall(f *ast.SelectorExpr, args []ast.Expr) specVal 
 						return c.convert(c.eval(args[0]), tn.Type())
 					}
 				}
+				if pd, ok := vc.eng.contracts.Preds[p.Path()+"."+f.Sel.Name]; ok {
+					return c.expandPred(pd, args)
+				}
 				if fn := vc.eng.funcByName(p, f.Sel.Name); fn != nil {
 					vals := make([]string, len(args))
 					for i, a := range args {
@@ -1040,9 +1077,20 @@ func (vc *VC) havocTarget(cf *Frame, st, pre *State, target string) {
 			vc.unsupportedf("modifies %s: %v", target, err)
 			return
 		}
+		if mt, ok := v.typ.Underlying().(*types.Map); ok {
+			d, vv := vc.mapSV(mt)
+			for _, sv := range []string{d, vv} {
+				na := vc.fresh(strings.TrimSuffix(strings.TrimPrefix(vc.svSort[sv], "(Array Int "), ")"), "hv_map")
+				vc.set(st, sv, fmt.Sprintf("(store %s %s %s)", vc.get(st, sv), v.term, na))
+				if vc.frameFr != nil {
+					vc.assignCheck(vc.frameFr, st, sv, v.term, vc.framePos)
+				}
+			}
+			return
+		}
 		sl, ok := v.typ.Underlying().(*types.Slice)
 		if !ok {
-			vc.unsupportedf("modifies %s: not a slice", target)
+			vc.unsupportedf("modifies %s: not a slice or map", target)
 			return
 		}
 		ev := vc.elemSV(sl.Elem())
